@@ -9,7 +9,7 @@
    against a table (Return ids | Raised exception step-index). *)
 From Coq Require Import List ZArith Bool.
 From Model Require Import Txn Hub.
-From Proofs Require Import HubTop.
+From Proofs Require Import HubTop HubNest.
 Import ListNotations.
 Open Scope Z_scope.
 
@@ -205,6 +205,65 @@ Theorem C08_refused_step_keeps_view :
                  (PRun old is_thr (Some (tview g view)) cached rest (S k) created).
 Proof. exact (@refused_step_keeps_view_proof). Qed.
 
+
+(* ------------------------------------------------------------------ one caller: nested calls, BaseExceptions, bodies that touch the hub *)
+(* Second half of Model/Hub.v: nbody = the function as a tree -- statements through the hub, nested
+   try: hub.doInTransaction(inner) except <nothing | Exception | BaseException>: pass, raise of a BaseException that is not an
+   Exception, hub.threadConnection = c / del hub.threadConnection, tx.commit() / tx.commit(close=True) / tx.rollback() on its
+   transaction; ncall s body = hub.doInTransaction(body) in state s (s arbitrary: in particular a state INSIDE outer calls, the
+   slot holding the outer transaction -- so every theorem below is about every nesting depth); proofs by induction on the tree. *)
+
+(* the hub after the call, on EVERY exit path (return, Exception, BaseException -- `finally`), for every function, nested calls
+   at any depth included: the process slot holds what it held; the caller's thread slot holds what it held if the caller had a
+   thread connection (even when the function assigned or deleted hub.threadConnection) or if the function leaves it alone *)
+Theorem C08_nest_slots_restored :
+  forall (s : nst) (body : nbody),
+    let s' := fst (ncall s body) in
+    n_proc s' = n_proc s /\ (n_slot s <> None \/ hub_pure body = true -> n_slot s' = n_slot s).
+Proof. exact (@nest_slots_restored_proof). Qed.
+
+Theorem C08_nest_hub_restored :
+  forall (s : nst) (body : nbody),
+    n_slot s <> None \/ hub_pure body = true -> nresolve (fst (ncall s body)) = nresolve s.
+Proof. exact (@nest_hub_restored_proof). Qed.
+
+(* a function without nested calls that does not commit by itself and leaves the hub alone -- statements, tx.rollback(), a raise
+   of ANY exception, BaseExceptions included (one code path since e6ce2b8: rollback, re-raise): if the call raises, the committed
+   table is the one before (at every depth) *)
+Theorem C08_nest_nothing_on_raise :
+  forall (s s' : nst) (body : nbody) (e : hexc) (k : nat),
+    quiet body = true -> ncall s body = (s', Raised e k) -> n_committed s' = n_committed s.
+Proof. exact (@nest_nothing_on_raise_proof). Qed.
+
+(* FULL statement of the property for nested calls: the function raised => nothing of what it did stays.  The code does not
+   have it: the inner call is an independent transaction, its commit is durable when the outer function raises afterwards
+   (finding nested_commit_survives_outer_rollback).  The guarded version is C08_nest_nothing_on_raise (guard: no nested call). *)
+Definition C08_nest_all_or_nothing_full : Prop :=
+  forall (s s' : nst) (body : nbody) (e : hexc) (k : nat),
+    hub_pure body = true -> commit_free body = true -> ncall s body = (s', Raised e k) -> n_committed s' = n_committed s.
+Theorem C08_nest_all_or_nothing_refuted :
+  exists (s s' : nst) (body : nbody) (e : hexc) (k : nat),
+    hub_pure body = true /\ commit_free body = true /\ is_exception e = true /\ n_lock s = None /\
+    ncall s body = (s', Raised e k) /\ n_committed s' <> n_committed s.
+Proof. exact (@nest_all_or_nothing_refuted_proof). Qed.
+
+(* "the underlying low-level connection is released", on EVERY exit path -- return, Exception, BaseException that is not an
+   Exception (since e6ce2b8 `except BaseException` rolls back) -- and for every function (nested calls, explicit commit / rollback,
+   hub steps): every transaction opened by the call or inside it, at any depth, is obsolete and released when the call is left;
+   and the write lock, if held at all, is held by an open transaction (an outer one).  Until e6ce2b8 this was refuted for
+   BaseExceptions (finding base_exception_skips_rollback, fixed) *)
+Theorem C08_nest_released :
+  forall (s s' : nst) (body : nbody) (r : result),
+    lock_open s -> ncall s body = (s', r) -> closed_from (length (n_txs s)) s' /\ lock_open s'.
+Proof. exact (@nest_released_proof). Qed.
+
+(* for the outermost call: afterwards no transaction is open and nobody holds the write lock *)
+Theorem C08_nest_lock_free :
+  forall (s s' : nst) (body : nbody) (r : result),
+    n_txs s = [] -> n_lock s = None -> ncall s body = (s', r) ->
+    n_lock s' = None /\ (forall j, nx_open (ntx_at s' j) = false).
+Proof. exact (@nest_lock_free_proof). Qed.
+
 (* ------------------------------------------------------------------ non-vacuity *)
 Definition v (z : Z) : val := Some z.
 Definition tab0 : table := {| t_rows := [(1, [v 1; v 1; v 10]); (2, [v 2; v 2; None])]; t_next := 3 |}.
@@ -304,6 +363,56 @@ Example C08_two_threads :
   g_lock (run_sched g0 [0; 1; 0]%nat) = Some 0%nat /\ resolve (run_sched g0 [0; 1; 0]%nat) 1 = Some (CTx 1).
 Proof. vm_compute. repeat split. Qed.
 
+
+(* nested: the caller has thread connection 0; the function calls doInTransaction(inner) first (inner creates a row and
+   returns), then creates a row itself and raises: its own row is gone, the inner one stays; both transactions closed, the
+   slot holds the connection again.  While the inner function ran the hub resolved to the inner transaction *)
+Definition ns0 (slot proc : option cref) : nst :=
+  {| n_committed := tab0; n_lock := None; n_slot := slot; n_proc := proc; n_txs := []; n_log := [] |}.
+Example C08_nested_inner_commit_stays :
+  let body := NCall KNone (NStep (BCreate (v 7) (v 7)) NEnd) (NStep (BCreate (v 8) (v 8)) (NStep (BFail 0) NEnd)) in
+  let '(s', r) := ncall (ns0 (Some (CDb 0)) None) body in
+  r = Raised (XUser 0) 2 /\
+  t_rows (n_committed s') = t_rows tab0 ++ [(3, [v 7; v 7; None])] /\
+  n_slot s' = Some (CDb 0) /\ map nx_open (n_txs s') = [false; false] /\ n_lock s' = None /\
+  n_log s' = [EStep (Some (CTx 0)); EStep (Some (CTx 1)); EExit 1 false false; EStep (Some (CTx 0)); EStep (Some (CTx 0)); EExit 0 false false].
+Proof. vm_compute. repeat split. Qed.
+(* the outer function wrote first: the inner call's write meets its lock, the outer function catches that and commits *)
+Example C08_nested_inner_refused :
+  let body := NStep (BCreate (v 8) (v 8)) (NCall KExc (NStep (BCreate (v 7) (v 7)) NEnd) (NStep (BWrite 1 0 (v 5)) NEnd)) in
+  let '(s', r) := ncall (ns0 None (Some (CDb 0))) body in
+  r = Return [3] /\ t_rows (n_committed s') = [(1, [v 5; v 1; v 10]); (2, [v 2; v 2; None]); (3, [v 8; v 8; None])] /\
+  n_proc s' = Some (CDb 0) /\ n_slot s' = None /\ map nx_open (n_txs s') = [false; false] /\ n_lock s' = None.
+Proof. vm_compute. repeat split. Qed.
+(* a BaseException from the inner function, caught by the outer one: nothing of the inner call stays, its transaction is rolled
+   back by the inner doInTransaction; thread AND process connection, the function deletes its thread connection and calls
+   again (the inner call then works on the process slot) and binds another connection: afterwards both slots as before *)
+Example C08_nested_base_and_hub :
+  let body := NCall KAll (NStep (BCreate (v 8) (v 8)) (NBase 2))
+                (NDelThread (NCall KNone (NStep (BCreate (v 9) (v 9)) NEnd) (NSetThread 2 (NStep (BFail 1) NEnd)))) in
+  let '(s', r) := ncall (ns0 (Some (CDb 0)) (Some (CDb 1))) body in
+  r = Raised (XUser 1) 4 /\ t_rows (n_committed s') = t_rows tab0 ++ [(3, [v 9; v 9; None])] /\
+  n_slot s' = Some (CDb 0) /\ n_proc s' = Some (CDb 1) /\ map nx_open (n_txs s') = [false; false; false] /\
+  map nx_parent (n_txs s') = [CDb 0; CTx 0; CDb 1].
+Proof. vm_compute. repeat split. Qed.
+
+(* C08_nest_released / C08_nest_lock_free are not vacuous: three transactions, the innermost left by a BaseException that goes
+   through two calls and is swallowed by the outermost function, which then creates a row and returns *)
+Example C08_nested_released_nonvacuous :
+  let body := NCall KAll (NStep (BCreate (v 8) (v 8)) (NCall KNone (NBase 2) NEnd)) (NStep (BCreate (v 9) (v 9)) NEnd) in
+  let '(s', r) := ncall (ns0 (Some (CDb 0)) None) body in
+  r = Return [3] /\ map nx_open (n_txs s') = [false; false; false] /\ n_lock s' = None /\
+  t_rows (n_committed s') = t_rows tab0 ++ [(3, [v 9; v 9; None])].
+Proof. vm_compute. repeat split. Qed.
+(* a BaseException that is not an Exception leaves the call: rolled back, released, lock free, hub restored, same exception *)
+Example C08_base_exception_rolled_back :
+  let body := NStep (BCreate (v 8) (v 8)) (NBase 1) in
+  let '(s', r) := ncall (ns0 None (Some (CDb 0))) body in
+  r = Raised (XBase 1) 1 /\ n_committed s' = tab0 /\ map nx_open (n_txs s') = [false] /\ n_lock s' = None /\
+  n_proc s' = Some (CDb 0) /\ n_slot s' = None /\
+  n_log s' = [EStep (Some (CTx 0)); EStep (Some (CTx 0)); EExit 0 false false].
+Proof. vm_compute. repeat split. Qed.
+
 Print Assumptions C08_all_or_nothing.
 Print Assumptions C08_same_exception.
 Print Assumptions C08_hub_restored.
@@ -323,3 +432,9 @@ Print Assumptions C08_history_plain.
 Print Assumptions C08_refused_guarded_step.
 Print Assumptions C08_refused_unguarded_step.
 Print Assumptions C08_refused_step_keeps_view.
+Print Assumptions C08_nest_slots_restored.
+Print Assumptions C08_nest_hub_restored.
+Print Assumptions C08_nest_nothing_on_raise.
+Print Assumptions C08_nest_all_or_nothing_refuted.
+Print Assumptions C08_nest_released.
+Print Assumptions C08_nest_lock_free.
